@@ -84,7 +84,7 @@ func c18Frame(c *core.Ctx, pkg *packages.Package) {
 			}
 			return true
 		})
-		want := []string{`fmt:"%s\n%s\n":` + p + ".Database()," + p + ".RetentionPolicy()", "write:" + p + ".Bytes(precision)", `write:[]byte("\n")`}
+		want := []string{`fmt:"%s\n%s\n":` + p + ".Database()," + p + ".RetentionPolicy()", "write:" + p + ".Bytes(" + an.ParamName(fn.Decl.Type, 2) + ")", `write:[]byte("\n")`}
 		c.Check(strings.Join(seq, " | ") == strings.Join(want, " | "), "C18.frame", "WritePointForRecording#record", fn.Decl.Pos(), "the stream record must be written as db\\n rp\\n line-protocol\\n; the writes are %v", seq)
 	}
 	fn := c.Need("C18.frame", "", "", "readPointsFromIO")
@@ -208,7 +208,14 @@ func c18Frame(c *core.Ctx, pkg *packages.Package) {
 			}
 			return true
 		})
-		okRetry = strings.Contains(cond, "err != nil") && strings.Contains(cond, ".Scan()") && appends && reparses
+		errTest := false
+		ast.Inspect(retry.Cond, func(n ast.Node) bool {
+			if be, ok := n.(*ast.BinaryExpr); ok && be.Op == token.NEQ && an.IsNil(info, be.Y) && an.IsErrorType(info, be.X) {
+				errTest = true
+			}
+			return true
+		})
+		okRetry = errTest && strings.Contains(cond, ".Scan()") && appends && reparses
 	}
 	// what is kept across the continuation's Scan() is a copy: Scanner.Bytes() points into the scanner's buffer, which the next
 	// Scan may overwrite or compact
@@ -378,7 +385,42 @@ func c18Shift(c *core.Ctx, pkg *packages.Package) {
 		if fn == nil {
 			continue
 		}
-		// diff and start are assigned only inside `if start.IsZero()`
+		// roles: `start` is the time.Time local tested with IsZero() around the assignment of the offset; `diff` the
+		// time.Duration local assigned there; `zero` the local holding the clock's Zero()
+		startN, diffN, zeroN := "", "", ""
+		ast.Inspect(fn.Decl.Body, func(n ast.Node) bool {
+			switch x := n.(type) {
+			case *ast.IfStmt:
+				if call, ok := x.Cond.(*ast.CallExpr); ok && startN == "" {
+					if sel, ok := call.Fun.(*ast.SelectorExpr); ok && sel.Sel.Name == "IsZero" {
+						if id, ok := sel.X.(*ast.Ident); ok {
+							if v, ok := info.Uses[id].(*types.Var); ok && !v.IsField() && v.Parent() != v.Pkg().Scope() {
+								for _, st := range x.Body.List {
+									if as, ok := st.(*ast.AssignStmt); ok && len(as.Lhs) == 1 {
+										if tv, ok := info.Types[as.Lhs[0]]; ok && tv.Type.String() == "time.Duration" {
+											startN, diffN = id.Name, types.ExprString(as.Lhs[0])
+										}
+									}
+								}
+							}
+						}
+					}
+				}
+			case *ast.AssignStmt:
+				if len(x.Lhs) == 1 && len(x.Rhs) == 1 && x.Tok == token.DEFINE {
+					if call, ok := x.Rhs[0].(*ast.CallExpr); ok {
+						if sel, ok := call.Fun.(*ast.SelectorExpr); ok && sel.Sel.Name == "Zero" {
+							zeroN = types.ExprString(x.Lhs[0])
+						}
+					}
+				}
+			}
+			return true
+		})
+		if startN == "" || diffN == "" || zeroN == "" {
+			c.Fail("C18.shift", name+"#once", fn.Decl.Pos(), "no offset assigned under a start.IsZero() guard found (start %q, offset %q, clock zero %q)", startN, diffN, zeroN)
+			continue
+		}
 		parents := parentMap(fn.Decl.Body)
 		good := true
 		nDiff := 0
@@ -389,19 +431,19 @@ func c18Shift(c *core.Ctx, pkg *packages.Package) {
 			}
 			for _, l := range as.Lhs {
 				nm := types.ExprString(l)
-				if nm != "diff" && nm != "start" {
+				if nm != diffN && nm != startN {
 					continue
 				}
-				if nm == "diff" {
+				if nm == diffN {
 					nDiff++
-					if rhs := types.ExprString(as.Rhs[0]); rhs != "zero.Sub(start)" {
+					if rhs := types.ExprString(as.Rhs[0]); rhs != zeroN+".Sub("+startN+")" {
 						good = false
 						c.Fail("C18.shift", name+"#diff-value", as.Pos(), "diff must be zero.Sub(start) (the clock's zero minus the first recorded time); it is %s", rhs)
 					}
 				}
 				guarded := false
 				for p := parents[as]; p != nil; p = parents[p] {
-					if ifs, ok := p.(*ast.IfStmt); ok && types.ExprString(ifs.Cond) == "start.IsZero()" {
+					if ifs, ok := p.(*ast.IfStmt); ok && types.ExprString(ifs.Cond) == startN+".IsZero()" {
 						guarded = true
 					}
 				}
@@ -434,7 +476,7 @@ func c18Shift(c *core.Ctx, pkg *packages.Package) {
 				return ""
 			},
 			Classify: func(a an.Atom) (string, bool) {
-				if a.Key == "recTime" {
+				if a.Key == an.ParamName(fn.Decl.Type, 3) {
 					return "rec", false
 				}
 				return "", false
@@ -491,7 +533,11 @@ func c18Shift(c *core.Ctx, pkg *packages.Package) {
 		parents := parentMap(fn.Decl.Body)
 		ast.Inspect(fn.Decl.Body, func(n ast.Node) bool {
 			rs, ok := n.(*ast.RangeStmt)
-			if !ok || types.ExprString(rs.X) != "points" {
+			if !ok || len(rs.Body.List) != 1 {
+				return true
+			}
+			// the loop whose body is one SetTime on the ranged slice's element
+			if es, ok := rs.Body.List[0].(*ast.ExprStmt); !ok || !strings.HasPrefix(types.ExprString(es.X), types.ExprString(rs.X)+"[") || !strings.Contains(types.ExprString(es.X), "].SetTime(") {
 				return true
 			}
 			shiftLoop = rs
@@ -516,10 +562,18 @@ func c18Shift(c *core.Ctx, pkg *packages.Package) {
 		okLoop := false
 		if shiftLoop != nil && len(shiftLoop.Body.List) == 1 {
 			if es, ok := shiftLoop.Body.List[0].(*ast.ExprStmt); ok {
-				okLoop = types.ExprString(es.X) == "points[i].SetTime(points[i].Time().Add(diff).UTC())"
+				sl, ix := types.ExprString(shiftLoop.X), types.ExprString(shiftLoop.Key)
+				txt := types.ExprString(es.X)
+				pre, post := sl+"["+ix+"].SetTime("+sl+"["+ix+"].Time().Add(", ").UTC())"
+				if strings.HasPrefix(txt, pre) && strings.HasSuffix(txt, post) {
+					// the offset added is the variable assigned under the IsZero guard (a time.Duration local)
+					if id := txt[len(pre) : len(txt)-len(post)]; id != "" && !strings.ContainsAny(id, "().") {
+						okLoop = true
+					}
+				}
 			}
 		}
-		c.Check(okLoop && guard == "!recTime", "C18.shift", "replayBatchFromChan#all-points", fn.Decl.Pos(), "unless recTime is set every point of the batch must get its own time plus diff (loop over all points: %v, guard %q)", okLoop, guard)
+		c.Check(okLoop && guard == "!"+an.ParamName(fn.Decl.Type, 3), "C18.shift", "replayBatchFromChan#all-points", fn.Decl.Pos(), "unless recTime is set every point of the batch must get its own time plus diff (loop over all points: %v, guard %q)", okLoop, guard)
 	}
 	_ = info
 }
@@ -532,6 +586,7 @@ func c18Deliver(c *core.Ctx, pkg *packages.Package) {
 		if fn == nil {
 			continue
 		}
+		s.over = an.ParamName(fn.Decl.Type, 1) // the channel parameter
 		// every path through one iteration collects or returns an error
 		eng := &an.Engine{Prog: c.P, ElemKeys: true,
 			TrackCall: func(call *ast.CallExpr, callee *types.Func) string {
@@ -565,10 +620,10 @@ func c18Deliver(c *core.Ctx, pkg *packages.Package) {
 		if s.fn == "replayStreamFromChan" {
 			c09LoopNoExitErr(c, "C18.deliver", s.fn+"#loop", fn, s.over)
 		}
-		c.Check(c18Defers(info, fn, "Close", "collector"), "C18.deliver", s.fn+"#close", fn.Decl.Pos(), "the collector must be closed when the replay ends (deferred collector.Close())")
+		c.Check(c18Defers(info, fn, "Close", an.ParamName(fn.Decl.Type, 2)), "C18.deliver", s.fn+"#close", fn.Decl.Pos(), "the collector must be closed when the replay ends (deferred collector.Close())")
 	}
 	if fn := c.Need("C18.deliver", "", "", "readPointsFromIO"); fn != nil {
-		c.Check(c18DefersClose(info, fn, "points") && c18Defers(info, fn, "Close", "data"), "C18.deliver", "readPointsFromIO#close", fn.Decl.Pos(), "the reader must close its channel and its source on every exit (deferred): the replayer's loop ends only when the channel is closed")
+		c.Check(c18DefersClose(info, fn, an.ParamName(fn.Decl.Type, 1)) && c18Defers(info, fn, "Close", an.ParamName(fn.Decl.Type, 0)), "C18.deliver", "readPointsFromIO#close", fn.Decl.Pos(), "the reader must close its channel and its source on every exit (deferred): the replayer's loop ends only when the channel is closed")
 		// nothing is skipped: no continue in the loop, one send per record
 		cont, sends := 0, 0
 		ast.Inspect(fn.Decl.Body, func(n ast.Node) bool {
@@ -576,7 +631,7 @@ func c18Deliver(c *core.Ctx, pkg *packages.Package) {
 			case *ast.BranchStmt:
 				cont++
 			case *ast.SendStmt:
-				if types.ExprString(x.Chan) == "points" {
+				if types.ExprString(x.Chan) == an.ParamName(fn.Decl.Type, 1) {
 					sends++
 				}
 			}
@@ -585,11 +640,11 @@ func c18Deliver(c *core.Ctx, pkg *packages.Package) {
 		c.Check(cont == 0 && sends == 1, "C18.deliver", "readPointsFromIO#every-record", fn.Decl.Pos(), "every record read must be sent on (branch statements %d, sends %d)", cont, sends)
 	}
 	if fn := c.Need("C18.deliver", "", "", "readBatchFromIO"); fn != nil {
-		c.Check(c18DefersClose(info, fn, "batches") && c18Defers(info, fn, "Close", "data"), "C18.deliver", "readBatchFromIO#close", fn.Decl.Pos(), "the batch reader must close its channel and its source on every exit (deferred)")
+		c.Check(c18DefersClose(info, fn, an.ParamName(fn.Decl.Type, 1)) && c18Defers(info, fn, "Close", an.ParamName(fn.Decl.Type, 0)), "C18.deliver", "readBatchFromIO#close", fn.Decl.Pos(), "the batch reader must close its channel and its source on every exit (deferred)")
 		// decode error is returned
 		eng := &an.Engine{Prog: c.P,
 			TrackStore: func(lhs ast.Expr, key string) string {
-				if types.ExprString(lhs) == "batches" {
+				if types.ExprString(lhs) == an.ParamName(fn.Decl.Type, 1) {
 					return "send"
 				}
 				return ""
@@ -668,10 +723,26 @@ func c18End(c *core.Ctx, pkg *packages.Package) {
 		if fn == nil {
 			continue
 		}
+		// roles: the result channel is what the function returns at its end; the collecting channel is the other local
+		// `make(chan error, n)` (the one the helper goroutines send to)
+		errC, allErrs := "", ""
+		if last, ok := fn.Decl.Body.List[len(fn.Decl.Body.List)-1].(*ast.ReturnStmt); ok && len(last.Results) == 1 {
+			errC = types.ExprString(last.Results[0])
+		}
+		ast.Inspect(fn.Decl.Body, func(n ast.Node) bool {
+			if as, ok := n.(*ast.AssignStmt); ok && len(as.Lhs) == 1 && len(as.Rhs) == 1 && as.Tok == token.DEFINE {
+				if call, ok := as.Rhs[0].(*ast.CallExpr); ok && core.IsBuiltin(info, call, "make") && len(call.Args) == 2 && types.ExprString(call.Args[0]) == "chan error" {
+					if nm := types.ExprString(as.Lhs[0]); nm != errC {
+						allErrs = nm
+					}
+				}
+			}
+			return true
+		})
 		// capacity expression of allErrs
 		capExpr := ""
 		ast.Inspect(fn.Decl.Body, func(n ast.Node) bool {
-			if as, ok := n.(*ast.AssignStmt); ok && len(as.Lhs) == 1 && types.ExprString(as.Lhs[0]) == "allErrs" {
+			if as, ok := n.(*ast.AssignStmt); ok && len(as.Lhs) == 1 && types.ExprString(as.Lhs[0]) == allErrs {
 				if call, ok := as.Rhs[0].(*ast.CallExpr); ok && core.IsBuiltin(info, call, "make") && len(call.Args) == 2 {
 					capExpr = types.ExprString(call.Args[1])
 				}
@@ -692,11 +763,11 @@ func c18End(c *core.Ctx, pkg *packages.Package) {
 			ast.Inspect(g, func(m ast.Node) bool {
 				switch x := m.(type) {
 				case *ast.SendStmt:
-					if types.ExprString(x.Chan) == "allErrs" {
+					if types.ExprString(x.Chan) == allErrs {
 						sends++
 					}
 				case *ast.UnaryExpr:
-					if x.Op == token.ARROW && types.ExprString(x.X) == "allErrs" {
+					if x.Op == token.ARROW && types.ExprString(x.X) == allErrs {
 						recvs++
 					}
 				}
@@ -745,11 +816,11 @@ func c18End(c *core.Ctx, pkg *packages.Package) {
 				}
 				return true
 			})
-			if loop != nil && loop.Cond != nil && types.ExprString(loop.Cond) == "i < cap(allErrs)" {
+			if loop != nil && loop.Cond != nil && strings.HasSuffix(types.ExprString(loop.Cond), " < cap("+allErrs+")") {
 				// first error forwarded, nil at the end
 				sendsErr, sendsNil := false, false
 				ast.Inspect(waiter.Body, func(n ast.Node) bool {
-					if s, ok := n.(*ast.SendStmt); ok && types.ExprString(s.Chan) == "errC" {
+					if s, ok := n.(*ast.SendStmt); ok && types.ExprString(s.Chan) == errC {
 						if types.ExprString(s.Value) == "nil" {
 							sendsNil = s.Pos() > loop.End()
 						} else {
@@ -882,17 +953,35 @@ func c18Codec(c *core.Ctx, root, edgePkg *packages.Package) {
 	if fn := c.Need("C18.codec", "edge", "pointMessage", "Bytes"); fn != nil {
 		info := edgePkg.TypesInfo
 		assigns := map[string][]string{}
+		roleObj := map[string]types.Object{}
 		ast.Inspect(fn.Decl.Body, func(n ast.Node) bool {
 			if as, ok := n.(*ast.AssignStmt); ok && len(as.Lhs) == len(as.Rhs) {
 				for i, l := range as.Lhs {
-					if id, ok := l.(*ast.Ident); ok && (id.Name == "key" || id.Name == "fields") {
-						src := "?"
-						if call, ok := as.Rhs[i].(*ast.CallExpr); ok {
-							if f := core.Callee(info, call); f != nil {
-								src = f.Name()
-							}
+					id, ok := l.(*ast.Ident)
+					if !ok {
+						continue
+					}
+					src := "?"
+					if call, ok := as.Rhs[i].(*ast.CallExpr); ok {
+						if f := core.Callee(info, call); f != nil {
+							src = f.Name()
 						}
-						assigns[id.Name] = append(assigns[id.Name], src)
+					}
+					obj := info.Defs[id]
+					if obj == nil {
+						obj = info.Uses[id]
+					}
+					// roles: `key` is the local first assigned from MakeKey, `fields` the one first assigned from MarshalBinary
+					switch {
+					case src == "MakeKey" && roleObj["key"] == nil:
+						roleObj["key"] = obj
+					case src == "MarshalBinary" && roleObj["fields"] == nil:
+						roleObj["fields"] = obj
+					}
+					for role, o := range roleObj {
+						if o != nil && o == obj {
+							assigns[role] = append(assigns[role], src)
+						}
 					}
 				}
 			}
@@ -904,7 +993,7 @@ func c18Codec(c *core.Ctx, root, edgePkg *packages.Package) {
 		parents := parentMap(fn.Decl.Body)
 		ast.Inspect(fn.Decl.Body, func(n ast.Node) bool {
 			id, ok := n.(*ast.Ident)
-			if !ok || (id.Name != "key" && id.Name != "fields") || info.Uses[id] == nil {
+			if !ok || info.Uses[id] == nil || (info.Uses[id] != roleObj["key"] && info.Uses[id] != roleObj["fields"]) {
 				return true
 			}
 			if v, isVar := info.Uses[id].(*types.Var); !isVar || v.IsField() {
